@@ -1,8 +1,4 @@
-#!/bin/sh
-# usage: goal.sh theories/Proofs/File.v LINE  -- show the proof state after line LINE
 f=$1; n=$2
-d=/verif/build/goal; mkdir -p $d
-b=$(basename $f)
-head -n $n /verif/coq/$f > $d/$b
-printf '\nShow.\n' >> $d/$b
-cd /verif/coq && timeout 120 coqc -Q theories VD -o $d/${b}o $d/$b 2>&1 | head -${3:-60}
+d=/verif/build/goal; mkdir -p $d; b=$(basename $f)
+head -n $n /verif/coq/$f > $d/$b; printf '\nShow.\n' >> $d/$b
+cd /verif/coq && timeout 120 coqc -Q theories VD -o $d/${b}o $d/$b 2>&1 | grep -v "Warning\|^File.*characters 2-" | tail -${3:-40}
